@@ -189,6 +189,7 @@ func c11Conc(cc c11Cell, env *Env) CellResult {
 			if !seen[v.Signature] {
 				seen[v.Signature] = true
 				v.Choices = r.Choices()
+				mustReproduce(v.Signature, v.Choices, body, check)
 				res.Violations = append(res.Violations, v)
 			}
 		}
